@@ -33,7 +33,7 @@ fn main() {
     let mut sum = Summary::default();
     sum.nontrivial_rule = "a case is (database, base query Q, predicate p, form) with form in {plain, distinct, count, sum/min/max, group-by, having, count-true}; distinct = distinct (db, SQL of Q, SQL of p, form); non-trivial = Q returns at least one row and p is not constant over Q's rows (at least two of the three parts non-empty)".into();
     let mut log = CaseLog::new(&args);
-    let ndb = if args.thorough { 1500 } else { 220 };
+    let ndb = if args.thorough { 600 } else { 220 };
     let per_db = 10;
     let nshards = 16;
     let mut shards: Vec<String> = (0..nshards).map(|_| String::from(SHARD_HEADER)).collect();
